@@ -50,6 +50,10 @@ FmtError == /\ Running /\ sub = "compute" /\ buf' = (IF buf = "garbage" THEN buf
             /\ UNCHANGED <<phase, idx, sub, disk, store, fault, popped, started>>
 FmtGarbage == /\ Running /\ sub = "compute" /\ buf' = "garbage"
               /\ UNCHANGED <<phase, idx, sub, disk, store, fault, degraded, popped, started>>
+\* the invocation that only CHECKS whether the file is formatter-clean: garbage just means "not clean",
+\* the file is then not re-formatted as a whole
+FmtCheckGarbage == /\ Running /\ sub = "compute" /\ buf' = (IF buf = "garbage" THEN buf ELSE "unf")
+                   /\ UNCHANGED <<phase, idx, sub, disk, store, fault, degraded, popped, started>>
 
 (* ---- the pipeline ---- *)
 \* leaving the report phase: nothing on disk has changed
@@ -88,7 +92,7 @@ NextStart == /\ phase = "done" /\ ~started /\ started' = TRUE
              /\ store' = [f \in Files |-> IF store[f] = "new" THEN "gone" ELSE store[f]]    \* prune_new_files
              /\ UNCHANGED <<phase, idx, sub, buf, disk, fault, degraded, popped>>
 Step == FmtOk \/ StartPrep \/ Parse \/ Persist \/ Open \/ Write \/ Trim
-Next == Step \/ FmtError \/ FmtGarbage \/ Exception \/ Crash \/ NextStart
+Next == Step \/ FmtError \/ FmtGarbage \/ FmtCheckGarbage \/ Exception \/ Crash \/ NextStart
 Spec == Init /\ [][Next]_vars /\ WF_vars(StartPrep \/ Parse \/ Persist \/ Open \/ Write \/ Trim) /\ WF_vars(NextStart)
 
 (* ---------------- C15 ---------------- *)
